@@ -88,7 +88,7 @@ func (s *simState) count(e simEvent) {
 		s.cnt.Admin++
 	case "SN":
 		s.cnt.Snaps++
-	case "K":
+	case "K", "SD":
 		s.cnt.Crashes--
 	}
 }
@@ -367,7 +367,7 @@ func expandState(sc *simScenario, req *expandReq) *expandResp {
 	resp.Stats = map[string]int{
 		"leaders": s.w.led.stats.leaders, "commits": s.w.led.stats.commits, "elections": s.w.led.stats.elections,
 		"configs": s.w.led.stats.configChanges, "restarts": s.w.led.stats.restarts,
-		"snapshots": s.w.led.stats.snapshots, "compactions": s.w.led.stats.compactions,
+		"snapshots": s.w.led.stats.snapshots, "compactions": s.w.led.stats.compactions, "linchecks": s.w.led.stats.linChecks,
 	}
 	evs := s.enabled()
 	if sc.Final != "" {
